@@ -37,6 +37,7 @@ var c29Hosts = []hostCase{
 	{"upper-domain", "ok.EXAMPLE.org"},
 	{"idn-unicode", "bücher.example.org"},
 	{"idn-punycode", "xn--bcher-kva.example.org"},
+	{"idn-punycode-space", "xn--bcher-kva.example.org "},
 	{"idn-upper", "BÜCHER.example.org"},
 	{"fullwidth-letters", "ｏｋ.example.org"},
 	{"ideographic-dots", "ok。example。org"},
@@ -89,6 +90,23 @@ type c29Op struct {
 
 func (o c29Op) String() string {
 	return fmt.Sprintf("%s(%s,%s,dns=%s,proof=%s)", o.Kind, testClients()[o.Caller].name, c29Hosts[o.Host].label, o.Answer, o.Proof)
+}
+
+// rawProofKind is a correctly solved, signed, in-window proof whose subject is the request
+// string exactly as sent. Where that string is not the normal form of the hostname it is NOT a
+// valid proof for the hostname (the expected subject is the hostname, not one of its
+// spellings); it drives code paths that would check the proof, the refused classes or the
+// existing binding against the raw spelling.
+const rawProofKind = "valid-over-raw-spelling"
+
+var c29ProofKinds = append(append([]string{}, acmeProofKinds...), rawProofKind)
+
+// proofFor picks the proof of the given kind for a request string.
+func proofFor(pb *proofBook, raw, kind string) *protocol.ProofOfWork {
+	if kind == rawProofKind {
+		return pb.get(raw, "valid")
+	}
+	return pb.get(proofSubject(raw), kind)
 }
 
 // proofSubject: the hostname a well-behaved client would prove work for.
@@ -161,8 +179,7 @@ func (b *bench) applyAndCheck(pb *proofBook, op c29Op) c29Result {
 	caller := cl[op.Caller]
 	raw := c29Hosts[op.Host].raw
 	logical, lok := refLogicalHost(raw)
-	subj := proofSubject(raw)
-	proof := pb.get(subj, op.Proof)
+	proof := proofFor(pb, raw, op.Proof)
 	b.setWorld(caller, logical, op.Answer)
 	before := b.kv.snapshot()
 	b.kv.log = nil
@@ -324,6 +341,30 @@ func c29(c *report.Check, thorough bool, only string) {
 	}
 	sort.Strings(subjects)
 	pb := buildProofBook(subjects, acmeProofKinds)
+	// plus one valid proof over every request string that is not its own normal form
+	var rawSubjects []string
+	for _, h := range c29Hosts {
+		if h.raw != proofSubject(h.raw) && !subjSet[h.raw] {
+			subjSet[h.raw] = true
+			rawSubjects = append(rawSubjects, h.raw)
+		}
+	}
+	sort.Strings(rawSubjects)
+	for k, v := range buildProofBook(rawSubjects, []string{"valid"}).m {
+		pb.m[k] = v
+	}
+	for _, s := range rawSubjects {
+		// solved and signed correctly for the raw text ...
+		if refAcmeProofOK(pb.get(s, "valid"), s) != !strings.Contains(s, ":") {
+			c.Internal(fmt.Sprintf("raw-spelling proof for %q is not a valid proof of its own subject", s))
+			return
+		}
+		// ... and therefore not a proof for the hostname it spells
+		if l, ok := refLogicalHost(s); ok && refAcmeProofOK(pb.get(s, "valid"), l) {
+			c.Internal(fmt.Sprintf("raw-spelling proof for %q is valid for the normal form", s))
+			return
+		}
+	}
 	// the proofs must be what their names say (reference check of the inputs themselves)
 	for _, s := range subjects {
 		for _, k := range acmeProofKinds {
@@ -349,7 +390,10 @@ func c29(c *report.Check, thorough bool, only string) {
 		for ci := range cl {
 			for _, ex := range []string{"none", "caller", "other"} {
 				for _, an := range c29Answers {
-					for _, pk := range acmeProofKinds {
+					for _, pk := range c29ProofKinds {
+						if pk == rawProofKind && c29Hosts[hi].raw == proofSubject(c29Hosts[hi].raw) {
+							continue // coincides with "valid"
+						}
 						for _, kind := range []string{"instruction", "validate"} {
 							if kind == "instruction" && an != "own" {
 								continue // DNS is not consulted by the instruction RPC (checked: no store or resolver effect)
@@ -379,7 +423,7 @@ func c29(c *report.Check, thorough bool, only string) {
 		nq := len(b.res.queries)
 		// was this a request the statement allows to succeed?
 		logical, lok := refLogicalHost(raw)
-		permitted := lok && refAcmeProofOK(pb.get(key, mc.op.Proof), logical)
+		permitted := lok && refAcmeProofOK(proofFor(pb, raw, mc.op.Proof), logical)
 		if permitted {
 			if must, _ := refMustRefuse(logical); must {
 				permitted = false
@@ -438,6 +482,12 @@ func c29(c *report.Check, thorough bool, only string) {
 				for _, pk := range []string{"valid", "wrong-subject"} {
 					alpha = append(alpha, c29Op{"validate", ci, hostIdx(hl), an, pk})
 				}
+			}
+		}
+		// spellings that are not the normal form, with a proof made over the spelling itself
+		for _, hl := range []string{"idn-unicode", "idn-punycode-space"} {
+			for _, an := range []string{"own", "other", "third", "error"} {
+				alpha = append(alpha, c29Op{"validate", ci, hostIdx(hl), an, rawProofKind})
 			}
 		}
 		alpha = append(alpha, c29Op{"instruction", ci, hostIdx("idn-unicode"), "own", "valid"})
@@ -535,13 +585,14 @@ func c29(c *report.Check, thorough bool, only string) {
 	c.Set("history_validations_succeeded", hbound)
 	c.Set("distinct_nontrivial", dist.N())
 	c.Set("rule", fmt.Sprintf("matrix: %d request hostnames (apex/ACME-zone/bare/upper-case/IDN/whitespace/wildcard/IP forms) x 3 callers (two v2, one v1 certificate) x existing binding {none, caller, other client} x CNAME answer %v x proof %v x {AcmeInstruction (one answer), AcmeValidate}; "+
-		"histories: all %d-step sequences over %d operations (3 callers x 2 spellings of one IDN name x 4 answers x 2 proofs, plus instruction) from an empty store, transition invariants checked at every step; "+
-		"class = (op, hostname class, existing owner, answer, proof, outcome)", len(c29Hosts), c29Answers, acmeProofKinds, depth, len(alpha)))
+		"histories: all %d-step sequences over %d operations (3 callers x {2 spellings of one IDN name x 4 answers x 2 proofs, 2 non-normal spellings x 4 answers x proof over the raw spelling, instruction}) from an empty store, transition invariants checked at every step; "+
+		"class = (op, hostname class, existing owner, answer, proof, outcome)", len(c29Hosts), c29Answers, c29ProofKinds, depth, len(alpha)))
 	c.Set("samples", dist.Samples())
 	c.Set("exhaustive", true)
 	c.Assume("handlers are driven directly with rpc.WithDelegation carrying a certificate issued by a test client CA (the RPC authentication middleware is C25's subject)",
 		"DHT = real kv/memory behind a recording wrapper; DNS = stub resolver whose answer for the challenge name is the enumerated one and which answers every other name with the caller's own target (attacker-controlled zones)",
 		"proof-of-work clock frozen at 2030-01-02T03:04:05Z; proofs solved once per hostname (difficulty 18) with fixed keys and nonces",
+		"a proof whose subject is a non-normal spelling of the hostname (raw request string) is not a valid proof for that hostname: the expected subject is the hostname in its normal form",
 		"a DNS name is identified by its whitespace-free, IDNA-ASCII, lower-case form; apex/ACME-zone = the name or any sub-domain of it; bare = fewer than two dots",
 		"safety only: refusals of eligible requests are counted (matrix_permitted_but_refused) but not judged, the statement does not require acceptance")
 }
